@@ -27,11 +27,9 @@ def convTable : List (Nat × Option Nat) :=
 /-! ## the reference scanner
 
 `strict = false`: the reference rules.  `strict = true`: the same rules restricted to the DOMAIN of
-the partial theorem — the scanner additionally gives up (`none`) on the one shape on which the
-Rust scanner is known to deviate (a listed known finding with a witness theorem in `Thm.lean`),
-and on two shapes that lie outside what the scanner can be asked or judged on:
+the theorem — the scanner additionally gives up (`none`) on two shapes that lie outside what the
+Rust scanner can be asked or judged on:
 
-  * a self-documenting field nested in a format spec                  (selfdoc-in-spec-unmerged)
   * a CR among the white space after a self-documenting `=`: `Py_ISSPACE` would accept it, but
     neither CPython's reader nor the Rust lexer ever lets a CR through (both turn CR and CRLF
     into LF), so no source produces such a body;
@@ -39,8 +37,9 @@ and on two shapes that lie outside what the scanner can be asked or judged on:
     reject it as an invalid expression, which this level of abstraction does not see.
 
 (The repaired scanner — triple-quoted strings in fields, any blank after `=`, escapes decoded in
-format specs, empty literal pieces dropped: /repo c09f12b, 897a1b6, 40fcb23, dfa74fc — no longer
-needs the exclusions the first version of this file had.)
+format specs, empty literal pieces dropped, the echo of a self-documenting field nested in a format
+spec merged: /repo c09f12b, 897a1b6, 40fcb23, dfa74fc and the `merge_constants` fix — no longer needs
+the exclusions the first versions of this file had.)
 
 Offsets: `off` is the absolute byte offset of the first character of the remaining text.
 Literal values are given in stored form (a lone surrogate escape written U+FFFD, as in C06). -/
@@ -159,10 +158,10 @@ def eqBytes : Option (List Nat) → Nat
   | some ws => 1 + ulen ws
   | none => 0
 
-/-- a self-documenting `=` outside the theorem's domain: inside a format spec, or followed by a
-    CR (which no source can produce) -/
-def eqOutside (lvl : Nat) : Option (List Nat) → Bool
-  | some ws => ws.any (· = 13) || decide (lvl ≥ 1)
+/-- a self-documenting `=` outside the theorem's domain: followed by a CR (which no source can
+    produce) -/
+def eqOutside : Option (List Nat) → Bool
+  | some ws => ws.any (· = 13)
   | none => false
 
 /-- one piece list with the literal text still pending in front of it -/
@@ -189,7 +188,7 @@ def field (lookup : List Nat → Option Nat) (strict raw : Bool) :
       else
         match eqPart r0 with
         | (sd, r1) =>
-          if strict ∧ eqOutside lvl sd then none
+          if strict ∧ eqOutside sd then none
           else
             match convPart r1 with
             | none => none
